@@ -422,10 +422,6 @@ def r5_names_and_zips(ctx):
     """Every parameter gets a dimension name and duplicates are replaced by '<model>.<argument>'; every zip(...) on the observation path pairs sequences that are equal-length by construction (reviewed table), and the dask length check dominates its zip."""
     f = ctx.func(f"{O}:_get_short_dimension_names_new")
     tp = f.params[0]
-    loops = [l for l in loops_in(f.node) if isinstance(l, ast.For)]
-    full = [l for l in loops if dotted(l.iter) == tp]
-    ok = len(full) >= 2
-    ctx.check(ok, f.qual + "#all-params", "both naming passes iterate every parameter" if ok else "a naming pass does not iterate all parameters", where=f, node=loops[0] if loops else f.node)
     dd = local_defs(f, "duplicate_dim_names")
     ok = False
     if len(dd) == 1 and isinstance(dd[0][1], ast.ListComp):
@@ -434,20 +430,100 @@ def r5_names_and_zips(ctx):
         src = norm(expand(f, lc.generators[0].iter))
         ok = len(ifs) == 1 and ifs[0].endswith("> 1") and "Counter(" in src and "potential_dim_names.values()" in src
     ctx.check(ok, f.qual + "#duplicates", "duplicates = names used more than once" if ok else "duplicate detection changed", where=f, node=dd[0][0] if dd else f.node)
-    # replacement under `short_name in duplicate_dim_names`
-    repl = [st for st, t in stores(f.node, lambda t: isinstance(t, ast.Subscript) and dotted(t.value) == "dim_names")]
+    # replacement of colliding names: _get_short_name_with_model(<key>) under a membership test in the duplicates
+    repl_calls = [c for c in calls_in(f.node) if call_name(c) == "_get_short_name_with_model"]
     ok = False
-    for st in repl:
-        ts = enclosing_tests(st)
-        if any(pol and norm(t) == "short_name in duplicate_dim_names" for t, pol in ts):
-            v = expand(f, st.value)
-            ok = isinstance(v, ast.Call) and call_name(v) == "_get_short_name_with_model" and dotted(v.args[0]) == dotted(st.targets[0].slice)
-    ctx.check(ok, f.qual + "#replace", "colliding names replaced by <model>.<argument> of the same parameter" if ok else "colliding short names are not disambiguated", where=f, node=repl[0] if repl else f.node)
-    rets = returns_of(f)
-    ok = len(rets) == 2 and {norm(r.value) for r in rets} == {"dim_names", "potential_dim_names"}
-    if ok:
-        r_dup = [r for r in rets if norm(r.value) == "dim_names"][0]
-        ok = any(pol and norm(t) == "duplicate_dim_names" for t, pol in enclosing_tests(r_dup))
+    for c in repl_calls:
+        ts = enclosing_tests(c)
+        guarded = any(pol and isinstance(t, ast.Compare) and isinstance(t.ops[0], ast.In) and norm(t.comparators[0]) == "duplicate_dim_names" for t, pol in ts)
+        lp_ = enclosing_loop(c)
+        keyvar = None
+        from sa.index import ancestors as _anc
+
+        for a_ in _anc(c):
+            if isinstance(a_, (ast.DictComp, ast.ListComp, ast.GeneratorExp)):
+                gen_ = a_.generators[0]
+                if any(isinstance(t, ast.Compare) and isinstance(t.ops[0], ast.In) and norm(t.comparators[0]) == "duplicate_dim_names" for i_ in gen_.ifs for t in conjuncts(i_)):
+                    guarded = True
+                keyvar = gen_.target.id if isinstance(gen_.target, ast.Name) else (gen_.target.elts[0].id if isinstance(gen_.target, ast.Tuple) and isinstance(gen_.target.elts[0], ast.Name) else None)
+                lp_ = None
+                break
+        if isinstance(lp_, ast.For):
+            keyvar = lp_.target.id if isinstance(lp_.target, ast.Name) else (lp_.target.elts[0].id if isinstance(lp_.target, ast.Tuple) and isinstance(lp_.target.elts[0], ast.Name) else None)
+        ok = ok or (guarded and c.args and keyvar is not None and dotted(c.args[0]) == keyvar)
+    ctx.check(ok, f.qual + "#replace", "colliding names replaced by <model>.<argument> of the same parameter" if ok else "colliding short names are not disambiguated by _get_short_name_with_model(<same parameter>) under `in duplicate_dim_names`", where=f, node=repl_calls[0] if repl_calls else f.node)
+    # the returned mapping must list the parameters in declaration order: the dask path pairs
+    # its keys positionally with the value tuple (zip(dimension_names, params_tuple))
+    g = ctx.cfg(f)
+    rets = [r for r in returns_of(f) if r.value is not None]
+    ordered_ok: dict[str, tuple[bool, str]] = {}
+
+    def order_follows(name: str, depth=0) -> tuple[bool, str]:
+        if name == tp:
+            return True, "the parameter mapping itself"
+        if name in ordered_ok:
+            return ordered_ok[name]
+        ordered_ok[name] = (False, "recursive")
+        defs = local_defs(f, name)
+        inits = [(st, val) for st, val in defs]
+        res = (False, f"`{name}` is not built by one ordered pass over the parameters")
+        if len(inits) == 1 and isinstance(inits[0][1], ast.DictComp):
+            dc = inits[0][1]
+            gen = dc.generators[0]
+            src = dotted(gen.iter) or (dotted(gen.iter.func.value) if isinstance(gen.iter, ast.Call) and isinstance(gen.iter.func, ast.Attribute) and gen.iter.func.attr in ("items", "keys") else None)
+            kv = gen.target.id if isinstance(gen.target, ast.Name) else (gen.target.elts[0].id if isinstance(gen.target, ast.Tuple) and isinstance(gen.target.elts[0], ast.Name) else None)
+            extra = [c for c in calls_in(f.node) if isinstance(c.func, ast.Attribute) and dotted(c.func.value) == name and c.func.attr in ("setdefault", "update", "pop")] + [st for st, t in stores(f.node, lambda t: isinstance(t, ast.Subscript) and dotted(t.value) == name)]
+            if gen.ifs:
+                res = (False, f"`{name}` is a filtered comprehension: parameters are inserted out of declaration order")
+            elif extra:
+                res = (False, f"`{name}` is completed after its comprehension ({norm(extra[0])[:50]}): insertion order differs from declaration order")
+            elif src and dotted(dc.key) == kv:
+                res = order_follows(src, depth + 1)
+        elif len(inits) == 1 and isinstance(inits[0][1], ast.Dict) and not inits[0][1].keys:
+            ins = [st for st, t in stores(f.node, lambda t: isinstance(t, ast.Subscript) and dotted(t.value) == name)]
+            extra = [c for c in calls_in(f.node) if isinstance(c.func, ast.Attribute) and dotted(c.func.value) == name and c.func.attr in ("setdefault", "update", "pop")]
+            loops = {id(enclosing_loop(st)): enclosing_loop(st) for st in ins}
+            if extra:
+                res = (False, f"`{name}` is also filled through {norm(extra[0])[:50]}")
+            elif len(loops) == 1 and isinstance(next(iter(loops.values())), ast.For):
+                lp_ = next(iter(loops.values()))
+                kv = lp_.target.id if isinstance(lp_.target, ast.Name) else (lp_.target.elts[0].id if isinstance(lp_.target, ast.Tuple) and isinstance(lp_.target.elts[0], ast.Name) else None)
+                src = dotted(lp_.iter) or (dotted(lp_.iter.func.value) if isinstance(lp_.iter, ast.Call) and isinstance(lp_.iter.func, ast.Attribute) and lp_.iter.func.attr in ("items", "keys") else None)
+                nodes = [n for st in ins for n in g.nodes_of(st)]
+                lo, hi = g.count_events_per_iteration(g.node_of(lp_), nodes)
+                keys_ok = all(dotted(st.targets[0].slice) == kv for st in ins if isinstance(st, ast.Assign))
+                if (lo, hi) != (1, 1):
+                    res = (False, f"`{name}` receives between {lo} and {hi} entries per parameter")
+                elif not keys_ok or src is None:
+                    res = (False, f"`{name}` is not keyed by the iterated parameter")
+                else:
+                    res = order_follows(src, depth + 1)
+        ordered_ok[name] = res
+        return res
+
+    for r in rets:
+        nm = dotted(r.value)
+        ok, why = order_follows(nm) if nm else (False, f"returns {norm(r.value)[:50]}")
+        ctx.check(ok, f.qual + "#order", f"`{nm}` lists every parameter once, in declaration order" if ok else why + " (the dask path pairs names and values positionally)", where=f, node=r)
+    # when duplicates exist the disambiguated mapping is what is returned
+    dis = [r for r in rets if nm and any(contains(enclosing_loop(c) or c, c) and True for c in repl_calls)]
+    names_with_repl = set()
+    for c in repl_calls:
+        scope = enclosing_loop(c) or enclosing_stmt(c)
+        for t in ast.walk(scope):
+            if isinstance(t, ast.Subscript) and isinstance(t.ctx, ast.Store):
+                names_with_repl.add(dotted(t.value))
+        for nm2 in {dotted(r.value) for r in rets if dotted(r.value)}:
+            for st2, val2 in local_defs(f, nm2):
+                if val2 is not None and contains(val2, c):
+                    names_with_repl.add(nm2)
+    ok = False
+    for r in rets:
+        if dotted(r.value) in names_with_repl:
+            ts = enclosing_tests(r)
+            # reached whenever duplicates exist: either under `if duplicate_dim_names`, or after an early return for the no-duplicate case
+            early = [r2 for r2 in rets if r2 is not r and any((pol and norm(t) == "not duplicate_dim_names") or ((not pol) and norm(t) == "duplicate_dim_names") for t, pol in enclosing_tests(r2))]
+            ok = any(pol and norm(t) == "duplicate_dim_names" for t, pol in ts) or (not ts and bool(early)) or (not ts and len(rets) == 1)
     ctx.check(ok, f.qual + "#return", "returns the disambiguated mapping whenever duplicates exist" if ok else "the disambiguated mapping is not returned when duplicates exist", where=f, node=rets[0] if rets else f.node)
     gm = ctx.func(f"{M}:_get_short_name_with_model")
     rets = [r for r in returns_of(gm) if r.value is not None]
